@@ -22,6 +22,7 @@ structure Orc where
   D : List Nat := []           -- withheld unwrapped numbers, newest first
   nD : Nat := 0
   fwd : List (Nat × Nat) := [] -- recently forwarded (u, number), newest first (bounded)
+  started : Bool := false
 
 structure St where
   m : State := {}
@@ -62,9 +63,11 @@ def step (st : St) (op impl : List String) : St × Verdict :=
         | some (m', r) => (m', resS (some r))
       let v := cmp out impl
       let o := st.orc
+      -- the first packet of a stream defines the origin
+      let o := if o.started then o else { o with U := 1048576 + s, started := true }
       let (u, resync) := lift o s
       let (o', ov) : Orc × Verdict :=
-        if resync then ({ U := u + 1, D := [], nD := 0, fwd := [] }, .ok)
+        if resync then ({ U := u + 1, D := [], nD := 0, fwd := [], started := true }, .ok)
         else
           let o1 := if u ≥ o.U then { o with U := u + 1 } else o
           match impl with
